@@ -379,6 +379,31 @@ func streamEcdh(c *ctx) {
 					bad(pko, "other-curve")
 				}
 			}
+			// every other EC2 curve, several keys, in compressed form too (a compressed x may well be an abscissa of the
+			// local curve) and with the leading zero octets of x removed
+			for _, oc := range dhCurves {
+				if oc.crv == dc.crv || oc.ell == nil {
+					continue
+				}
+				for t := 0; t < 4; t++ {
+					ko, err := ecdh.GenerateKey(oc.crv)
+					if err != nil {
+						continue
+					}
+					pko, err := ecdh.ToPublicKey(ko)
+					if err != nil {
+						continue
+					}
+					if cko, err := ecdh.ToCompressedKey(pko); err == nil {
+						bad(cko, "other-curve-compressed")
+						if x, _ := cko.GetBytes(iana.EC2KeyParameterX); len(stripZeros(x)) < len(x) {
+							sk := cloneKey(cko)
+							sk[iana.EC2KeyParameterX] = stripZeros(x)
+							bad(sk, "other-curve-compressed-stripped")
+						}
+					}
+				}
+			}
 			pkb := fb["uncompressed"]
 			if pkb == nil {
 				continue
